@@ -364,6 +364,16 @@ func runFileScenario(t testing.TB, tr *tracer, o fileOpts, sc fileScenario, seed
 				return idle() && b.pr.nReqs() == n
 			})
 		}
+		if b.pr == nil {
+			// real servers answer a request after they have applied it: once the client has no request in flight any more,
+			// the abandoned chunks of a cancelled transfer have taken their effect
+			waitFor(2*time.Second, func() bool {
+				b.cl.clientConn.Lock()
+				n := len(b.cl.clientConn.inflight)
+				b.cl.clientConn.Unlock()
+				return n == 0
+			})
+		}
 		pos := -1
 		if p, e := f.Seek(0, io.SeekCurrent); e == nil {
 			pos = int(p)
